@@ -9,6 +9,7 @@ same T; no safe client code can manufacture an accessor any other way (witnesses
 import re
 
 from ..mir import deep_strip, tstr, strip_generics, canon, subterms, is_call
+from ..pat import unref
 from .. import effects, checks, witness, fixtures
 from . import c05, c17
 
@@ -139,6 +140,26 @@ def rule_sinks(rep, prog, eff):
                 ok = idx is not None and any(r[0] == 'cmp' and r[1] == 'Lt' and r[2] == idx and r[3][0] == 'field' and r[3][2] == 'nelem' for r in fs)
                 rep("R1.2.ref_at", inst, ok, where, f"element pointer = addr + `{tstr(o)}`; requires byte offset = size_of::<T>() * index with `index < nelem` dominating")
                 continue
+            # ---- G: a sub-range of an element array, checked in ELEMENTS: pointer moved by index * size_of::<T>(), `count` elements,
+            # behind a successful index + count (no wrap) that is <= the parent's nelem. Scaling all three by the same element size
+            # keeps the inclusion: (index + count) * s <= nelem * s.
+            if off is not None and short == "VolatileArrayRef" and (parent_adt or "").endswith("VolatileArrayRef"):
+                idx = _scaled_index(eff.inline(off))
+                fs = b.facts_at(c.pos)
+                ok = False
+                if idx is not None and ext is not None:
+                    for s in facts_ok:
+                        if s[0] == 'call' and canon(s[1]).split("::")[-1] in ("compute_offset", "checked_add") and len(s[2]) == 2 and \
+                                sorted(map(repr, (deep_strip(s[2][0]), deep_strip(s[2][1])))) == sorted(map(repr, (idx, deep_strip(ext)))):
+                            for r in fs:
+                                if r[0] == 'cmp' and r[1] == 'Le' and checks.producer(deep_strip(r[2])) == s and deep_strip(r[2])[0] == 'ok':
+                                    y = unref(r[3])
+                                    if y[0] == 'field' and y[2] == 'nelem' and effects.base_of(y[1]) == parent:
+                                        ok = True
+                rep("R1.2.elem_range", inst, ok, where,
+                    f"sub-array at addr + `{tstr(eff.inline(off))}` with `{tstr(ext)}` elements: requires byte offset = index * size_of::<T>() and a successful "
+                    "index + count (checked) <= nelem of the parent dominating (non-strict)")
+                continue
             # ---- A: moved pointer inside a parent with a length
             if off is not None:
                 ok = False
@@ -178,6 +199,10 @@ def rule_sinks(rep, prog, eff):
             if not ref_ok:
                 ok = False
                 detail = ""
+            elif short == "VolatileArrayRef" and ext is not None and _array_over_exact_slice(prog, eff, parent, ext, facts_ok):
+                ok = True
+                detail = (f"array of `{tstr(ext)}` elements at the address of a sub-slice that was requested with exactly "
+                          f"`{tstr(ext)}`.checked_mul(size_of::<T>()) bytes (successful): same extent in bytes")
             elif ext is None or parent_extent_ok(eff, parent, parent_adt, ext):
                 ok = True
                 detail = f"same address, extent `{tstr(eff.inline(ext)) if ext is not None else 'size_of::<T>()'}` is the parent's own extent"
@@ -199,6 +224,47 @@ def rule_sinks(rep, prog, eff):
                 (f"VolatileRef<T> placed at the address of `{tstr(parent)[:80]}` but nothing shows that parent holds size_of::<T>() bytes (a start-only check such as offset() accepts start == len)" if not ref_ok else
                  f"accessor at the parent's address with extent `{tstr(ext)}` but nothing shows extent <= len(`{tstr(parent)}`)"))
     return n
+
+
+def _scaled_index(o):
+    """o == index * size_of::<T>() (checked or plain, either order) -> index"""
+    o = unov(o)
+    if o[0] == 'ok':
+        o = checks.producer(o)
+    args = None
+    if o[0] == 'bin' and o[1].startswith("Mul"):
+        args = (deep_strip(o[2]), deep_strip(o[3]))
+    elif o[0] == 'call' and canon(o[1]).endswith("num::checked_mul") and len(o[2]) == 2:
+        args = (deep_strip(o[2][0]), deep_strip(o[2][1]))
+    if args is None:
+        return None
+    x, y = args
+    if is_sizeof(x) and tuple(x[3] if len(x) > 3 else ()) == ("T",):
+        return y
+    if is_sizeof(y) and tuple(y[3] if len(y) > 3 else ()) == ("T",):
+        return x
+    return None
+
+
+def _array_over_exact_slice(prog, eff, parent, nelem, facts_ok):
+    """parent == ok(subslice(X, o, n)) of the crate's own VolatileSlice::subslice (whose result has exactly the requested length:
+    checked on its body), with n == nelem * size_of::<T>() (checked multiplication that succeeded)"""
+    parent = deep_strip(parent)
+    if parent[0] != 'ok':
+        return False
+    p = checks.producer(parent)
+    if not (p[0] == 'call' and strip_generics(p[1]).endswith("volatile_memory::VolatileSlice::subslice") and p in facts_ok and len(p[2]) == 3):
+        return False
+    sub = prog.by_id.get(p[1]) or next((x for x in prog.bodies if strip_generics(x.id) == strip_generics(p[1])), None)
+    if sub is None:
+        return False
+    exact = False
+    for _pos, rt in sub.return_terms():
+        for x in subterms(deep_strip(rt)):
+            if x[0] == 'call' and canon(x[1]).endswith("VolatileSlice::with_bitmap"):
+                exact = deep_strip(x[2][1])[:2] == ('param', 3)
+    n = _scaled_index(eff.inline(p[2][2]))
+    return exact and n is not None and n == deep_strip(nelem)
 
 
 def _trait_range_check(prog, S, s):
